@@ -25,6 +25,8 @@ type schedConn struct {
 	entered chan struct{}
 	parked  bool
 	closed  bool
+	failFirst int // >= 0: the parked Write accepts only this many bytes and then fails
+	failed    bool
 }
 
 func (c *schedConn) Write(p []byte) (int, error) {
@@ -35,6 +37,19 @@ func (c *schedConn) Write(p []byte) (int, error) {
 	if first {
 		close(c.entered)
 		<-c.gate
+		if c.failFirst >= 0 {
+			n := c.failFirst
+			if n > len(p) {
+				n = len(p)
+			}
+			c.mu.Lock()
+			c.failed = true
+			if n > 0 {
+				c.writes = append(c.writes, append([]byte(nil), p[:n]...))
+			}
+			c.mu.Unlock()
+			return n, &tErr{id: 555}
+		}
 	}
 	c.mu.Lock()
 	c.writes = append(c.writes, append([]byte(nil), p...))
@@ -53,7 +68,10 @@ func runSchedScenario(seed int64) *scenario {
 	r := rand.New(rand.NewSource(seed))
 	sc := &scenario{kind: "sched", seed: seed}
 	srv := r.Intn(2) == 0
-	sconn := &schedConn{gate: make(chan struct{}), entered: make(chan struct{})}
+	sconn := &schedConn{gate: make(chan struct{}), entered: make(chan struct{}), failFirst: -1}
+	if r.Intn(3) == 0 {
+		sconn.failFirst = r.Intn(6)
+	}
 	ks := &keySource{keys: []byte{1, 2, 3, 4, 5, 6, 7, 8}}
 	restore := websocket.VerifSetMaskRand(&lockedReader{r: ks})
 	defer restore()
@@ -137,6 +155,34 @@ func runSchedScenario(seed int64) *scenario {
 	}
 	// afterwards: not poisoned, unless a close went out
 	after := c.WriteMessage(1, []byte("after"))
+	if sconn.failFirst >= 0 {
+		// the parked write failed: fail-stop. Nothing but the accepted prefix may be on the wire and
+		// every caller that was queued behind it must see an error.
+		sconn.mu.Lock()
+		nw := len(sconn.writes)
+		total := 0
+		for _, w := range sconn.writes {
+			total += len(w)
+		}
+		sconn.mu.Unlock()
+		if werr == nil {
+			sc.violate("the transport failed inside the writer's frame but WriteMessage returned nil")
+		}
+		if total > sconn.failFirst || nw > 1 {
+			sc.violate("after a failed transport write %d more bytes in %d writes reached the transport (fail-stop violated)", total-sconn.failFirst, nw)
+		}
+		for i, cl := range callers {
+			if !cl.short && cl.err == nil {
+				sc.violate("WriteControl #%d queued behind a failed write returned nil", i)
+			}
+		}
+		if after == nil {
+			sc.violate("WriteMessage succeeded after a transport write had failed")
+		}
+		sc.emit(fmt.Sprintf("sched seed=%d srv=%d callers=%d fail=%d", seed, b2i(srv), n, sconn.failFirst), "ok")
+		sc.tag("fail")
+		return sc
+	}
 	sconn.mu.Lock()
 	writes := sconn.writes
 	sconn.mu.Unlock()
@@ -216,7 +262,7 @@ func runSchedScenario(seed int64) *scenario {
 	} else if after != nil {
 		sc.violate("connection poisoned: WriteMessage after timed-out WriteControls failed with %v", after)
 	}
-	sc.emit(fmt.Sprintf("sched srv=%d callers=%d", b2i(srv), n), "ok")
+	sc.emit(fmt.Sprintf("sched seed=%d srv=%d callers=%d", seed, b2i(srv), n), "ok")
 	sc.tag(fmt.Sprintf("callers:%d", n))
 	if closeSeen {
 		sc.tag("close")
@@ -233,4 +279,182 @@ func (l *lockedReader) Read(p []byte) (int, error) {
 	l.mu.Lock()
 	defer l.mu.Unlock()
 	return l.r.Read(p)
+}
+
+// ---------------------------------------------------------------------------
+// C19 / C20 / C11: many goroutines, each with its own connection, sharing one PreparedMessage (or
+// several) and one write buffer pool. Judged by the RFC oracle per connection; meaningful mostly
+// under the race detector (thorough tier).
+// ---------------------------------------------------------------------------
+
+type syncPool struct {
+	mu   sync.Mutex
+	free []interface{}
+	gets int
+	puts int
+	bad  int
+}
+
+func (p *syncPool) Get() interface{} {
+	p.mu.Lock()
+	defer p.mu.Unlock()
+	p.gets++
+	if len(p.free) == 0 {
+		return nil
+	}
+	v := p.free[len(p.free)-1]
+	p.free = p.free[:len(p.free)-1]
+	if b := peekPooled(v); b != nil {
+		for _, x := range b {
+			if x != 0xEE {
+				p.bad++
+				break
+			}
+		}
+	}
+	return v
+}
+
+func (p *syncPool) Put(v interface{}) {
+	if b := peekPooled(v); b != nil {
+		for i := range b {
+			b[i] = 0xEE
+		}
+	}
+	p.mu.Lock()
+	p.puts++
+	p.free = append(p.free, v)
+	p.mu.Unlock()
+}
+
+func runConcScenario(seed int64) *scenario {
+	r := rand.New(rand.NewSource(seed))
+	sc := &scenario{kind: "conc", seed: seed}
+	ks := &keySource{keys: []byte{11, 22, 33, 44}}
+	restore := websocket.VerifSetMaskRand(&lockedReader{r: ks})
+	defer restore()
+	pool := &syncPool{}
+	nconn := 2 + r.Intn(6)
+	wbuf := []int{16, 125, 1024}[r.Intn(3)]
+	type pmDef struct {
+		t    int
+		data []byte
+		pm   *websocket.PreparedMessage
+	}
+	var pms []pmDef
+	for i := 0; i < 1+r.Intn(3); i++ {
+		t := []int{1, 2, 9}[r.Intn(3)]
+		n := []int{0, 5, 100, 5000, 9000}[r.Intn(5)]
+		if t == 9 {
+			n = r.Intn(126)
+		}
+		d := make([]byte, n)
+		for j := range d {
+			d[j] = byte('A' + i + j%7)
+		}
+		pm, err := websocket.NewPreparedMessage(t, d)
+		if err != nil {
+			sc.violate("NewPreparedMessage: %v", err)
+			return sc
+		}
+		pms = append(pms, pmDef{t, d, pm})
+	}
+	type cstate struct {
+		srv, nego bool
+		t         *TConn
+		c         *websocket.Conn
+		sent      []apiMsg
+		err       error
+	}
+	conns := make([]*cstate, nconn)
+	for i := range conns {
+		cs := &cstate{srv: r.Intn(2) == 0, nego: r.Intn(2) == 0, t: newTConn(&evlog{})}
+		cs.t.quiet = true
+		cs.c = websocket.VerifNewConn(cs.t, cs.srv, 0, wbuf, pool, nil, nil)
+		if cs.nego {
+			websocket.VerifSetCompression(cs.c, nil)
+		}
+		conns[i] = cs
+	}
+	seeds := make([]int64, nconn)
+	for i := range seeds {
+		seeds[i] = r.Int63()
+	}
+	var wg sync.WaitGroup
+	for i, cs := range conns {
+		wg.Add(1)
+		go func(cs *cstate, sd int64) {
+			defer wg.Done()
+			lr := rand.New(rand.NewSource(sd))
+			for k := 0; k < 12; k++ {
+				switch lr.Intn(4) {
+				case 0:
+					cs.c.EnableWriteCompression(lr.Intn(2) == 0)
+				case 1:
+					p := make([]byte, lr.Intn(600))
+					for j := range p {
+						p[j] = byte(k)
+					}
+					if err := cs.c.WriteMessage(2, p); err != nil {
+						cs.err = err
+						return
+					}
+					cs.sent = append(cs.sent, apiMsg{2, p})
+				default:
+					d := pms[lr.Intn(len(pms))]
+					if err := cs.c.WritePreparedMessage(d.pm); err != nil {
+						cs.err = err
+						return
+					}
+					cs.sent = append(cs.sent, apiMsg{d.t, d.data})
+				}
+			}
+		}(cs, seeds[i])
+	}
+	wg.Wait()
+	for i, cs := range conns {
+		if cs.err != nil {
+			sc.violate("conn %d: write failed: %v", i, cs.err)
+			continue
+		}
+		frames, rest, bad := rfcDecode(cs.t.wire)
+		if bad != "" || len(rest) > 0 {
+			sc.violate("conn %d: wire not whole frames (%s, %d stray bytes): buffers or prepared frames were shared unsafely", i, bad, len(rest))
+			continue
+		}
+		for _, p := range rfcCheck(frames, !cs.srv, cs.nego) {
+			sc.violate("conn %d: %s", i, p)
+		}
+		msgs, ctls := rfcMessages(frames)
+		var wd, wc []apiMsg
+		for _, m := range cs.sent {
+			if m.t == 1 || m.t == 2 {
+				wd = append(wd, m)
+			} else {
+				wc = append(wc, m)
+			}
+		}
+		if len(msgs) != len(wd) || len(ctls) != len(wc) {
+			sc.violate("conn %d: %d/%d messages and %d/%d control frames on the wire", i, len(msgs), len(wd), len(ctls), len(wc))
+			continue
+		}
+		for j, m := range msgs {
+			if m.inflateErr != "" || m.op != wd[j].t || !bytes.Equal(m.payload, wd[j].payload) {
+				sc.violate("conn %d: message %d differs from what was sent (%s)", i, j, m.inflateErr)
+			}
+		}
+		for j, f := range ctls {
+			if f.op != wc[j].t || !bytes.Equal(f.payload, wc[j].payload) {
+				sc.violate("conn %d: control frame %d differs", i, j)
+			}
+		}
+	}
+	if pool.bad > 0 {
+		sc.violate("a pooled buffer was modified while it was in the pool (%d times)", pool.bad)
+	}
+	if pool.gets != pool.puts {
+		sc.violate("pool: %d gets, %d puts after all messages ended", pool.gets, pool.puts)
+	}
+	sc.emit(fmt.Sprintf("sched seed=%d conc=%d", seed, nconn), "ok")
+	return sc
 }
